@@ -184,7 +184,11 @@ class XMLResource(XMLResourceLoader):
 
         if is_url(source):
             assert isinstance(source, (str, bytes, Path))
-            self.url = self.get_url(source)
+            try:
+                self.url = self.get_url(source)
+            except ValueError as err:
+                # e.g. an embedded null byte or characters that are not encodable
+                raise XMLSchemaValueError(f"invalid source location {source!r}: {err}")
             self._url_scheme = urlsplit(self.url).scheme
             self.access_control(self.url)
 
@@ -448,6 +452,9 @@ class XMLResource(XMLResourceLoader):
                 return cast(IOType, urlopen(url, timeout=self._timeout))
             except URLError as err:
                 raise XMLResourceOSError(f"can't access to resource {url!r}: {err.reason}")
+            except ValueError as err:
+                # Malformed URLs, e.g. with an embedded null byte or a not valid data URL
+                raise XMLResourceOSError(f"can't access to resource {url!r}: {err}")
 
         if use_loaded and self.text is not None:
             fp: IOType = StringIO(self.text)
